@@ -94,7 +94,7 @@ func oracleIgnore(c *Ctx) error {
 		if len(ign) == 0 {
 			for p := range c.Pre.Work.Files {
 				_, tracked := c.Pre.IdxMap[p]
-				if !tracked && !rep.Untracked[p] && p != ".goitignore" {
+				if !tracked && !rep.Untracked[p] && p != ".goitignore" && !strings.Contains(p, "\n") { // (a name with a line break cannot be read back from the line-oriented report)
 					return fmt.Errorf("no .goitignore, yet status hides the untracked file %q", p)
 				}
 			}
